@@ -196,7 +196,18 @@ def part_exits(ctx, pairs, cfgs, per_type_cfgs):
             parts = X.unpack(outs[k])
             assert len(parts) == 8, (len(parts), outs[k][:200])
             k += 1
-            cases.append({"enc": parts})
+            case = {"enc": parts}
+            # python encoder: pad=0 must reproduce the Coq encodings; pad=0xAA gives the dirty-input variants
+            tA, tC = ("tuple", (t,)), ("tuple", (t, X.B5))
+            tD, tD2 = ("tuple", (X.ADDR, t)), ("tuple", (X.ADDR, t, X.B5))
+            if A.py_enc(tA, [v], 0) != parts[0] or A.py_enc(tC, [v, b5], 0) != parts[2]:
+                report(ctx, "correspondence-broken", "python helper encoder disagrees with the Coq spec", {"type": A.eth_ty(t)}, "pyenc")
+            else:
+                dA = A.py_enc(tA, [v], 0xAA)
+                if dA != parts[0]:
+                    case["dirty"] = (dA, A.py_enc(tC, [v, b5], 0xAA), A.py_enc(tD, [0x1234, v], 0xAA),
+                                     A.py_enc(tD2, [0x1234, v, b5], 0xAA))
+            cases.append(case)
             wrapped.append((t, v, parts[0]))
         chosen = cfgs if per_type_cfgs >= len(cfgs) else [cfgs[(ti * per_type_cfgs + j) % len(cfgs)] for j in range(per_type_cfgs)]
         for cfg in chosen:
@@ -226,7 +237,7 @@ def part_exits(ctx, pairs, cfgs, per_type_cfgs):
                       "calldata": m["calldata"],
                       "how": "deploy source under config; deploy echo callee (runtime 366000600037366000a000) for ext*; "
                              "call the function named by `exit` with the canonical encoding of value; compare bytes"}
-            args_t = ("tuple", (t,)) if m["exit"] == "extcall_calldata" else ("tuple", (t, X.B5))
+            args_t = ("tuple", (t,)) if m["exit"].split("+")[0] == "extcall_calldata" else ("tuple", (t, X.B5))
             if m["exit"].startswith("extcall") and obs is not None and obs[:len(exp)] == exp and len(obs) > len(exp) \
                     and len(obs) == 4 + A.size_bound(args_t):
                 # outgoing calldata = selector ++ canonical ++ trailing bytes up to size_bound (dirty memory)
@@ -259,9 +270,13 @@ def part_literals(ctx, pairs, cfgs, per_type_cfgs):
         cases = []
         for v in vals:
             parts = X.unpack(outs[k])
-            assert len(parts) == 6, (len(parts), outs[k][:200])
+            assert len(parts) == 7, (len(parts), outs[k][:200])
             k += 1
-            cases.append({"enc": parts})
+            case = {"enc": parts}
+            dA = A.py_enc(("tuple", (t,)), [v], 0xAA)
+            if A.py_enc(("tuple", (t,)), [v], 0) == parts[0] and dA != parts[0]:
+                case["dirty"] = dA
+            cases.append(case)
         for j in range(per_type_cfgs):
             cfg = cfgs[(ti * per_type_cfgs + j + 5) % len(cfgs)]
             jobs.append((src, cfg, t, cases))
@@ -289,6 +304,54 @@ def part_literals(ctx, pairs, cfgs, per_type_cfgs):
     return n
 
 
+KEY_STORAGE_WIDEN = "venom-storage-widening-declared-type"
+KEY_TUPLE_WIDEN = "venom-tuple-return-widening"
+
+
+def part_widening(ctx, cfgs):
+    """a value of a NARROWER compatible type returned / assigned as a WIDER type (different memory stride of the
+    elements) must still be emitted canonically: state variable, internal-call result, internal tuple result, memory"""
+    exprs = []
+    for t, _, _, v in X.WIDEN:
+        exprs.append(f"pack [enc (TTuple [{A.coq_ty(t)}]) (VList [{A.coq_val(t, v)}]); "
+                     f"enc (TTuple [{A.coq_ty(t)}; TUInt 256]) (VList [{A.coq_val(t, v)}; VInt 5])]")
+    outs = A.coq_strings(exprs, "c06widen", imports=A.IMPORTS + X.PACK_DEF, shard=10)
+    items = []
+    for idx, ((t, narrow, wide, v), o) in enumerate(zip(X.WIDEN, outs)):
+        e1, e2 = X.unpack(o)
+        for kind in ("storage", "internal", "internal_tuple", "memory"):
+            items.append((idx, kind, X.widen_source(kind, narrow, wide), e1, e2 if kind == "internal_tuple" else e1))
+    jobs = [(cfg, items) for cfg in cfgs]
+    with ProcessPoolExecutor(max_workers=4) as ex:
+        results = list(ex.map(X.run_widen_config, jobs))
+    n = 0
+    for (cfg, _), res in zip(jobs, results):
+        n += res["n"]
+        if res["error"]:
+            report(ctx, "correspondence-broken", f"widening harness could not run: {res['error'][:200]}",
+                   {"config": cfg.name, "error": res["error"]}, "widen-harness-error")
+        for m in res["mismatch"]:
+            t, narrow, wide, v = X.WIDEN[m["idx"]]
+            key = None
+            if cfg.venom and m["kind"] == "storage":
+                key = KEY_STORAGE_WIDEN
+            elif cfg.venom and m["kind"] == "internal_tuple" and m["fn"] == "f":
+                key = KEY_TUPLE_WIDEN
+            obs = bytes.fromhex(m["observed"]) if m["observed"] is not None else None
+            exp = bytes.fromhex(m["expected"])
+            detail = {"source": m["source"], "config": cfg.name, "exit": "ret_cd", "function": m["fn"], "scenario": m["kind"],
+                      "narrow": narrow, "wide": wide, "value": repr(v), "calldata": m["calldata"],
+                      "expected_canonical": m["expected"], "observed": m["observed"], "where": diff_pos(obs, exp)}
+            name = (f"{m['kind']} value of type {narrow} emitted as {wide}: return data differs from the canonical "
+                    f"encoding of the value")
+            if key is not None:
+                report(ctx, "failing-input", name, detail, "widen:" + key, key=key)
+            else:
+                report(ctx, "failing-input", name, detail, "widen:" + m["kind"])
+    ctx.corr["widening_comparisons"] = n
+    return n
+
+
 def part_reasons(ctx, cfgs):
     r = ctx.rng("reasons")
     bounds = [1, 31, 32, 33, 65] if ctx.tier == "quick" else [1, 5, 31, 32, 33, 64, 65, 100]
@@ -304,12 +367,13 @@ def part_reasons(ctx, cfgs):
     by = {}
     for (nb, s), o in zip(meta, outs):
         a, b = X.unpack(o)
-        by.setdefault(nb, []).append((a, b, s))
+        dS = A.py_enc(("tuple", (("string", nb),)), [s], 0xAA)
+        by.setdefault(nb, []).append((a, b, s, dS))
     jobs, jm = [], []
     for nb, cases in by.items():
         src = X.reason_source(nb)
         for cfg in cfgs:
-            jobs.append((src, cfg, nb, [(a, b) for a, b, _ in cases]))
+            jobs.append((src, cfg, nb, [(a, b, d) for a, b, _, d in cases]))
             jm.append((nb, cases, src, cfg))
     with ProcessPoolExecutor(max_workers=4) as ex:
         results = list(ex.map(X.run_reason_config, jobs, chunksize=4))
@@ -476,7 +540,8 @@ def run(ctx):
     t0 = time.time()
     n_eth = part_eth_abi(ctx, wrapped)
     n_reason = part_reasons(ctx, C.quick_configs() if quick else cfgs)
-    n_reason += part_literals(ctx, pairs[::2] if quick else pairs[::2], cfgs, 2 if quick else 3)
+    n_reason += part_literals(ctx, pairs, cfgs, 2 if quick else 3)
+    n_reason += part_widening(ctx, C.quick_configs() if quick else cfgs)
     ctx.log(f"reasons: {time.time() - t0:.1f}s")
     zp_ok, zp = part_zero_pad_template(ctx)
     struct_bad = part_encoder_structure(ctx)
